@@ -1100,12 +1100,26 @@ bool Runner<T>::step(const Op& op0, std::size_t index)
         }
         case APPEND_ALIAS:
         {
-            if (!T::copyable || sz == 0)
+            if (sz == 0)
             {
                 tr::reg().countdown = 0;
                 return true;
             }
             std::size_t k = static_cast<std::size_t>(op.vals.empty() ? 0 : op.vals[0]) % sz;
+            if (op.b % 4 == 3 && sz >= cap)
+            {
+                // a full container is asked to append one of its own elements, handed over as an
+                // rvalue: it raises, and the element stays what it was
+                expect_raise = true;
+                ctx.tag("op:append-moved-self-element-when-full");
+                slot[a]->emplace_back(std::move((*slot[a])[k]));
+                break;
+            }
+            if (!T::copyable)
+            {
+                tr::reg().countdown = 0;
+                return true;
+            }
             expect_raise = sz >= cap;
             after.v.push_back(before.v[k]);
             if constexpr (T::copyable)
